@@ -7,3 +7,5 @@ C10 = {'ZkProofs.C10': ['Zk.C10_fr_roundtrip', 'Zk.C10_fr_decode_canonical', 'Zk
 C12 = {'ZkProofs.C12': ['Zk.C12_ok_implies_satisfiable_partial', 'Zk.C12_only_crash_is_length_assertion_partial', 'Zk.C12_open_shape_example', 'Zk.C12_range_check_boundary', 'Zk.C12_range_check_exact']}
 C13 = {'ZkProofs.C13': ['Zk.C13_verify_total', 'Zk.C13_accepted_canonical', 'Zk.C13_unique_encoding', 'Zk.C13_alias_rejected']}
 C01['ZkProofs.C01Backends'] = ['Zk.C01_of_observables', 'Zk.C01_full_history', 'Zk.C01_optimal_history', 'Zk.C01_pm_history', 'Zk.C01_all_backends']
+
+C10['ZkProofs.C10Json'] = ['Zk.C10_json_roundtrip', 'Zk.C10_json_encode_err', 'Zk.C10_json_decode_canonical', 'Zk.C10_json_encode_injective', 'Zk.C10_json_matches_bytes', 'Zk.C10_bigint_json', 'Zk.C10_json_decoder_ignores_trailing']
